@@ -58,7 +58,7 @@ def via(make, x, NFFT, sampling, scale_by_freq, route='fresh', prev=None):
     `route`: constructed with them, or constructed with another value of ONE of them, evaluated, and then given the wanted value
     through the attribute."""
     x = np.asarray(x)
-    if route in (None, 'fresh') or (route == 'nfft_assigned' and NFFT is None):
+    if route in (None, 'fresh') or (route == 'nfft_assigned' and not isinstance(NFFT, (int, np.integer))):
         return make(x, NFFT, sampling, scale_by_freq)
     # the data the object held before: `prev` (e.g. the untransformed record: the caller studies x -> T(x) on ONE object) or, by
     # default, other values of the same length and dtype kind
